@@ -76,6 +76,9 @@ INV = [
     "forall(k, range(L0()), submitted_jobs[k] == old(submitted_jobs)[k])",
     "forall(k, range(L0(), len(submitted_jobs)), batch._jobs[k - L0()] == cfgjob(self, submitted_jobs[k].name))",
     "forall(k, range(L0(), len(submitted_jobs)), submitted_jobs[k].name in S())",
+    # C02/C03: the job description written into the batch configuration carries the blockers that REMAIN (names with an outcome were
+    # removed from the persisted record), so the node waits for nothing outside its batch
+    "forall(k, range(L0(), len(submitted_jobs)), cfgjob(self, submitted_jobs[k].name).blocked_by == submitted_jobs[k].blocked_by)",
     "forall(x, S(), exists(k, range(L0(), len(submitted_jobs)), submitted_jobs[k].name == x))",
     "forall(k, range(L0(), len(submitted_jobs)), exists(m, range(len(available_jobs)), available_jobs[m] == submitted_jobs[k]))",
     "forall(k, range(L0(), len(submitted_jobs)), forall(m, range(L0(), k), submitted_jobs[k].name != submitted_jobs[m].name))",
@@ -123,6 +126,8 @@ contract("HpcSubmitter._make_batch", file=F,
              "forall(k, range(old(len(submitted_jobs))), submitted_jobs[k] == old(submitted_jobs)[k])",
              "forall(k, range(L0(), len(submitted_jobs)), result[0]._jobs[k - L0()] == cfgjob(self, submitted_jobs[k].name))",
              "forall(k, range(L0(), len(submitted_jobs)), submitted_jobs[k].name in result[0]._job_names)",
+             # C02/C03: each placed job's description carries exactly the remaining blockers of the persisted record
+             "forall(k, range(L0(), len(submitted_jobs)), cfgjob(self, submitted_jobs[k].name).blocked_by == submitted_jobs[k].blocked_by)",
              "forall(x, result[0]._job_names, exists(k, range(L0(), len(submitted_jobs)), submitted_jobs[k].name == x))",
              "forall(k, range(L0(), len(submitted_jobs)), exists(m, range(len(available_jobs)), available_jobs[m] == submitted_jobs[k]))",
              "forall(k, range(L0(), len(submitted_jobs)), forall(m, range(L0(), k), submitted_jobs[k].name != submitted_jobs[m].name))",
